@@ -1,8 +1,10 @@
 #!/bin/bash
 # tools/verify_mutant.sh <dir> <k>  — confirms in the scratch worktree /tmp/wt-verify that mutant k of <dir>
 # compiles, passes the repository's tests, and that its demonstration differs with / without the patch.
+# The scratch worktree is not kept: create it first with `git -C /repo worktree add --detach /tmp/wt-verify HEAD`
+# and remove it afterwards with `git -C /repo worktree remove --force /tmp/wt-verify`.
 D="$1"; K="$2"; WT=/tmp/wt-verify
-cd $WT || exit 2
+cd $WT || { echo "create the scratch worktree first (see the comment in this script)"; exit 2; }
 git checkout -q -- . ; rm -f tests/demo*.rs
 run_demo() { # prints demo output
   if [ -f "$D/demo$K.nl" ]; then
